@@ -1,6 +1,7 @@
 package engine
 
 import (
+	"strings"
 	"fmt"
 	"go/token"
 	"os"
@@ -282,6 +283,11 @@ func (e *Exec) havocAll(st *State, why string, pos token.Pos) {
 	}
 	// ghost counters are observable effects too: an unknown callee may have bumped any of them
 	for k := range e.ghostNames {
+		if strings.HasPrefix(k, "L:") {
+			// a ghost local to the contracts that mention it: assumed unchanged by callees without a contract
+			e.W.Note("assumed: callees without a contract do not change the ghost " + k + " (they do not make the calls whose contracts set it)")
+			continue
+		}
 		st.Ghost["G|"+k] = e.fresh("g."+k, ghostSort(k))
 		if e.disc != nil {
 			e.disc.ghost["G|"+k] = true
